@@ -241,8 +241,8 @@ def add_gradients(
     # Fix the first and the last values
     # First is defined by the sum of firsts with the minimal delay (common_delay)
     # Last is defined by the sum of lasts with the maximum duration (total_duration == durs.max())
-    grad.first = np.sum(firsts[np.array(delays) == common_delay])
-    grad.last = np.sum(lasts[durs == durs.max()])
+    grad.first = np.sum(firsts[np.abs(np.array(delays) - common_delay) < eps])
+    grad.last = np.sum(lasts[np.abs(durs - durs.max()) < eps])
 
     if trace_enabled():
         grad.trace = trace()
